@@ -23,7 +23,7 @@ META = {
              "the independent reference, not proved. Keys the file cannot hold are refused by the gateway (fact keyChecked, modelled: "
              "InvalidArgument before anything is created). The file format itself is C01. encoding/gob's zero omission is modelled "
              "(validated by the 28-value table case on both write paths), not verified. "
-             "NOT PROVED: Hv.C05.Holds in the positive direction (only refuted per bad fact); HoldsSingle is one session on a buffered swamp (write interval > 0) only; the request universe of the Lean statements (Req) has no PatchTreasures / expired-shift / ShiftMatching — those reach persistence through the same SaveFunction / deleteHandler and are exercised by the correspondence run (one request in five) and the reference oracle, not by a theorem."),
+             "PARTLY PROVED: Hv.C05.holds_multi_partial — with a type-tagged encoding, Holds (any persistent kind, any number of sessions) follows from StepKeepsPOK (every request keeps the invariant 'a key that is not waiting for the writer has the persisted form of its live record in the file image'); proved around it: the invariant holds initially, a close keeps it, an instance reloaded from a written file has it, close + reload from it shows every record once through the encoding (Hv.Data.close_view_pok, any kind), SaveFunction and deleteHandler keep it under the side conditions 'a treasure whose changed flag is clear is the stored one or already queued' and 'an object without a file pointer is not in the file' (pok_save, pok_delete). OPEN: discharging those side conditions along every request (flag accuracy of the setters, recreateKeepsPointer, incFailClean) — StepKeepsPOK itself; HoldsSingle is one session on a buffered swamp (write interval > 0) only; the request universe of the Lean statements (Req) has no PatchTreasures / expired-shift / ShiftMatching — those reach persistence through the same SaveFunction / deleteHandler and are exercised by the correspondence run (one request in five) and the reference oracle, not by a theorem."),
     "design_ref": "§8 C05",
 }
 
